@@ -4,7 +4,8 @@ use serde_json::{json, Value};
 pub fn rule_text(check: &str) -> String {
     let supply = "one run = one seed: a supply-chain world (owners, functionaries, outsiders with seeded keys; 1-4 steps with thresholds 0-3; optional delegation) that is accepting by construction, verified once fault-free (a rejected baseline is counted under 'vacuous' but the faulted world is judged all the same), then the same world with 1-3 faults of the catalogue, verified through the public in_toto_verify under the clock / hash / storage seams. Non-trivial = at least one fault fired and the root layout was still parseable. Distinct = distinct digest of the abstract post-fault world: per step threshold, number of counting signers, delegated and lenient evidence, failed necessary conditions, fault kinds, caller key-set size, file count, rule-list signature, verdict class.";
     match check {
-        "C01" | "C02" | "C07" | "C15" => supply.to_string(),
+        "C07" => format!("{supply} PIPELINE RUNS (one run in thirty-two): a chain of 1-3 steps really carried out with in_toto_run in workspaces on tmpfs, one step by TWO functionaries, each on his own copy of what the artifact transport handed over (the transport to the second one may tamper with / inject / remove a file); the step needs both links; if the harness's own snapshots of the two workspaces (before and after the command) differ, verification must fail."),
+        "C01" | "C02" | "C15" => supply.to_string(),
         "C13" => format!("{supply} For C13 the world is biased to the dangerous shape (threshold <= 1 or surplus signers, with 1-3 extra authorized valid links whose materials/products differ) and is verified 12 (quick) / 48 (thorough) times, each in a fresh thread with different injected hash-map keys and one of three file-creation orders; all repetitions must agree in verdict class and summary materials/products."),
         "C14" => "one run = one seed of one of four case kinds: (a) a supply-chain world whose link directory gets 1-4 storage faults before any signature is checked (bit flip, torn write, overwrite with NUL / multi-byte UTF-8, garbage, directory / dangling link / named pipe in place of a file, duplicate under another or an odd multi-byte name); (b) Byzantine-but-signed odd content (non-ASCII key ids, non-normalized paths, extreme thresholds and return values, odd step names / patterns / expiry strings, empty layout, self-delegation through a symlinked sub-directory, hostile text); (c) a real signed document, damaged, fed to the decoders and to block verification through a faulting stream (chunking, EINTR, EIO at an offset), or random bytes to calculate_hashes; (d) a key file (PKCS#8, SPKI DER, PEM, key JSON, raw ed25519) damaged by truncation / bit flips / overwrites / extreme length octets, fed to the key importers. Every library call runs under catch_unwind in a worker process watched by the parent (abort, stack overflow, 60 s without progress). Distinct = digest of case kind, fault labels, outcome class and size class / world shape; all cases are non-trivial.".to_string(),
         "C06" => "one run = one sampled supply-chain world (delegation depth up to 2) x the whole grid: expiry-minus-clock in {-10y,-1d,-1s,-1ns,0,+1ns,+1s,+1d,+10y, year 9999} x notation in {Z,+00:00,+05:30,-11:00,+14:00,.5Z,.000000001Z,.999999999+05:30} x verifier instant in {1970-01-02, 2001, 2026, 2038-01-19T03:14:08Z, 2100, 9000} (3 of 6 in quick) x position of the expiring layout in {root, depth 1, depth 2} x clock {constant, jumping forward between reads}. Each cell is one evaluation; distinct = digest of world shape x cell; all cells are non-trivial (a clock fault is always present).".to_string(),
